@@ -142,6 +142,9 @@ ORDER_PROGRAMS = [p for p in ORDER_PROGRAMS if p]
 
 # exit ecalls that are only recognisable after another exit has been cut, several exit numbers, a7 set far from the ecall
 EXIT_PROGRAMS = [
+    # an exit inside a function that is recognisable only after an earlier exit has been cut, another function behind it
+    "main:\n    jal f\n    jal g\n    li a7, 10\n    ecall\nf:\n    li a7, 10\n    beq a0, zero, join\n    li a7, 93\n    ecall\njoin:\n    ecall\ng:\n    ret\n",
+    "main:\n    jal f\n    jal g\n    li a7, 10\n    ecall\nf:\n    bnez a1, go\n    ret\ngo:\n    li a7, 10\n    beqz a0, second\n    li a7, 93\n    ecall\nsecond:\n    ecall\ng:\n    addi a0, a0, 1\n    ret\n",
     # exits that are recognisable only after the edge behind an earlier exit has been cut (two and three rounds)
     "main:\n    beqz a0, L\n    li a7, 10\n    ecall\nE2:\n    ecall\n    addi t0, t0, 1\n    li a7, 10\n    ecall\nL:\n    li a7, 93\n    j E2\n",
     "main:\n    beqz a0, L1\n    bnez a1, L2\n    li a7, 10\n    ecall\nE2:\n    ecall\nE3:\n    ecall\n    addi t0, t0, 1\n    li a7, 10\n    ecall\nL1:\n    li a7, 93\n    j E2\nL2:\n    li a7, 93\n    j E3\n",
